@@ -369,6 +369,46 @@ def run(chk):
                 break
         else:
             chk.sample({'files': nfiles, 'lang': lang, 'multi_file': multi, 'fresh_processes': len(results), 'cpu_sets': reps, 'distinct_outputs': 1})
+    # ---- (b2) every back end's configuration tables and per-item decorators, repeated fresh processes (fresh hash seeds): a
+    # HashMap / HashSet iterated while emitting shows only when it holds two or more entries (seeded C06_f: Swift's default generic
+    # constraints collected into a HashSet and printed in its iteration order for parameters that carry swiftGenericConstraints)
+    RICH_SRC = ('#[typeshare(swift = "Equatable, Hashable, Comparable")]\n#[typeshare(swiftGenericConstraints = "T: Equatable & Hashable, U: Comparable")]\n'
+                'pub struct Page<T, U> { pub items: Vec<T>, pub extra: Option<U>, pub user_id: String, pub callback_url: Url, pub at: DateTime, pub data: Vec<u8> }\n'
+                '#[typeshare]\n#[typeshare(swiftGenericConstraints = "K: Hashable")]\n#[serde(tag = "t", content = "c")]\npub enum Event<K> { A(K), B { api_id: u32, raw: Vec<u8> }, C }\n'
+                '#[typeshare]\n#[typeshare(swift = "Sendable")]\npub enum Kind { IdOnly, UrlOnly }\n#[typeshare]\npub type Ids<T> = Vec<T>;\n#[typeshare]\npub struct Plain { pub uuid: Uuid, pub html: String }\n')
+    RICH_CFG = ('[swift]\nprefix = "OP"\ndefault_decorators = ["Sendable", "Identifiable", "CustomStringConvertible"]\ndefault_generic_constraints = ["Sendable", "Identifiable", "CustomStringConvertible"]\n'
+                'codablevoid_constraints = ["Equatable", "Hashable", "Sendable"]\n[swift.type_mappings]\n"Url" = "URL"\n"DateTime" = "Date"\n"Uuid" = "UUID"\n'
+                '[kotlin]\npackage = "com.p"\nprefix = "OP"\n[kotlin.type_mappings]\n"Url" = "String"\n"DateTime" = "String"\n"Uuid" = "String"\n'
+                '[scala]\npackage = "com.p"\n[scala.type_mappings]\n"Url" = "String"\n"DateTime" = "String"\n"Uuid" = "String"\n'
+                '[typescript.type_mappings]\n"Url" = "string"\n"DateTime" = "Date"\n"Uuid" = "string"\n"Vec<u8>" = "Uint8Array"\n'
+                '[go]\npackage = "p"\nuppercase_acronyms = ["ID", "URL", "API", "UUID", "HTML"]\n[go.type_mappings]\n"Url" = "string"\n"DateTime" = "time.Time"\n"Uuid" = "string"\n"Vec<u8>" = "[]byte"\n'
+                '[python.type_mappings]\n"Url" = "AnyUrl"\n"DateTime" = "datetime"\n"Uuid" = "str"\n"Vec<u8>" = "bytes"\n')
+    rich = work / 'rich'
+    (rich / 'lib' / 'src').mkdir(parents=True)
+    (rich / 'lib' / 'src' / 'lib.rs').write_text(RICH_SRC)
+    (rich / 'typeshare.toml').write_text(RICH_CFG)
+    nrep = 12 if chk.tier == 'quick' else 40
+    for lang, ext, extra, cfg in LANGS:
+        for multi in (False, True):
+            seen_out = {}
+            for r in range(nrep):
+                out = vf.tmpdir()
+                cmd = [str(vf.TYPESHARE), '--lang', lang, '-c', str(rich / 'typeshare.toml')] + (['-d', str(out / 'gen')] if multi else ['-o', str(out / f'out.{ext}')]) + [str(rich / 'lib')]
+                p = subprocess.run(['timeout', '60'] + cmd, capture_output=True, text=True)
+                key = (p.returncode, json.dumps(digest_dir(out), sort_keys=True))
+                if key not in seen_out:
+                    texts = {str(f.relative_to(out)): f.read_text(errors='replace') for f in sorted(out.rglob('*')) if f.is_file()}
+                    seen_out[key] = texts
+                shutil.rmtree(out, ignore_errors=True)
+                chk.evaluations += 1
+            chk.count('config_rich_runs', nrep)
+            if len(seen_out) > 1:
+                a, b2 = list(seen_out.values())[:2]
+                chk.violation(f'rich-{lang}-{"multi" if multi else "single"}', {'lang': lang, 'multi_file': multi, 'source': RICH_SRC, 'typeshare_toml': RICH_CFG, 'output_a': a, 'output_b': b2,
+                                                                               'distinct_outputs': len(seen_out), 'runs': nrep},
+                              f'{nrep} identical runs ({lang}, {"folder" if multi else "single-file"} mode, configuration tables with several entries) produced {len(seen_out)} different outputs')
+            else:
+                chk.nontrivial.add(('rich', lang, multi))
     # ---- (c) multi-file mode with cross-crate imports: fresh processes (fresh hash seeds) and, via the hook, arrival orders.
     # Import sets are HashSets merged per crate; renames and import lines are resolved through them. The input classes in
     # which the UNCHANGED code already picks by hash order are decided on the input (imports_ambiguity: two classes; globs are
